@@ -40,6 +40,10 @@ pub struct Case {
   /// the registry entry module is added by a second build() on the graph
   #[serde(default)]
   pub jsr_second_build: bool,
+  /// one more fault: the content load of a registry package file (picked
+  /// among those the fault-free build issues) is answered with a redirect
+  #[serde(default)]
+  pub jsr_file_redirect: Option<(u16, u16)>,
 }
 
 fn params(tier: Tier) -> GenParams {
@@ -64,11 +68,13 @@ pub fn spec() -> PropSpec<Case> {
         prop_oneof![3 => Just(0u8), 1 => Just(1u8), 1 => Just(2u8)],
         proptest::option::weighted(0.35, crate::props::c07::jsr_part_strategy()),
         proptest::bool::weighted(0.4),
+        proptest::option::weighted(0.3, (any::<u16>(), any::<u16>())),
       )
-        .prop_map(|(build, faults, npm_mode, jsr, jsr_second_build)| Case {
+        .prop_map(|(build, faults, npm_mode, jsr, jsr_second_build, jsr_file_redirect)| Case {
           build,
           faults,
           npm_mode,
+          jsr_file_redirect: if jsr.is_some() { jsr_file_redirect } else { None },
           jsr,
           jsr_second_build,
         })
@@ -225,6 +231,23 @@ pub fn check(case: &Case, _tier: Tier) -> Outcome {
       plan.insert((call.spec.clone(), attempt), fault);
     }
   }
+  if let Some((which, to)) = case.jsr_file_redirect {
+    let files: Vec<&crate::harness::LoadCall> = log0
+      .iter()
+      .filter(|c| c.spec.starts_with(crate::registry::REGISTRY) && !c.spec.ends_with("meta.json") && c.cache != "only")
+      .collect();
+    if !files.is_empty() && !loaded.is_empty() {
+      let call = files[idx(which, files.len())];
+      let target = loaded[idx(to, loaded.len())].clone();
+      let attempt = log0[..call.seq].iter().filter(|c| c.spec == call.spec && c.cache != "only").count() as u32;
+      if target != call.spec && !plan.contains_key(&(call.spec.clone(), attempt)) {
+        touched.insert(call.spec.clone());
+        touched.insert(target.clone());
+        close_over_world(&b.world, &mut touched);
+        plan.insert((call.spec.clone(), attempt), Fault::RedirectTo(target));
+      }
+    }
+  }
   // an injected npm resolution failure is a failure too: every npm: entry
   // depends on it (whether it shows as an error entry or in the graph-level
   // dependency result depends on who imports the specifier, statically or
@@ -322,6 +345,40 @@ fn check_faulted(
     || logf
       .iter()
       .any(|c| c.cache == "reload" && c.spec.ends_with("/meta.json"));
+  // a file of a registry package answered by a redirect (or under another
+  // final specifier): redirects inside a package are not followed, the file
+  // itself gets the error entry
+  if !restarted {
+    for ((spec, attempt), f) in lf.faults.iter() {
+      if *attempt != 0 || !spec.starts_with(crate::registry::REGISTRY) || spec.ends_with("meta.json") {
+        continue;
+      }
+      let target = match f {
+        Fault::RedirectTo(t) | Fault::FinalSpec(t) => t,
+        _ => continue,
+      };
+      if target == spec || !fired.iter().any(|(s, a)| s == spec && *a == 0) {
+        continue;
+      }
+      // the only content-consuming request of that file
+      if logf.iter().filter(|c| &c.spec == spec && c.cache != "only").count() != 1 {
+        continue;
+      }
+      let Ok(url) = ModuleSpecifier::parse(spec) else { continue };
+      o.label(if logf.iter().any(|c| &c.spec == spec && c.cache == "only") {
+        "redirected-package-file/deferred-content-load"
+      } else {
+        "redirected-package-file/direct-load"
+      });
+      // looked up by the file's own entry, not by what an error names
+      if gf.try_get(&url).is_ok() {
+        o.violate(
+          "C03/redirected-package-file-without-error-entry",
+          format!("{spec}: its content load was answered with a redirect to {target}; the graph has {:?} for it", entries.get(spec)),
+        );
+      }
+    }
+  }
   for (spec, kind) in simple {
     if restarted {
       break;
@@ -622,6 +679,7 @@ pub fn extra(tier: Tier, seed: u64) -> ExtraReport {
             npm_mode: 0,
             jsr: None,
             jsr_second_build: false,
+            jsr_file_redirect: None,
           };
           let case_json = serde_json::to_value(&case).unwrap();
           let res = std::panic::catch_unwind(std::panic::AssertUnwindSafe(|| {
